@@ -119,6 +119,8 @@ def build_cases(tier):
         for pair in pairs:
             for base in ("one", "two"):
                 for kind in KINDS_WINDOW + KINDS_OTHER:
+                    if kind.startswith("coarse") and g.dt[0] * S.MTU_H[g.mtu] > 12.0:
+                        continue   # the coarse kinds use freq 12h: an asset grid finer than the portfolio grid is refused by EAO as documented
                     positions = [0, 1, 99] if tier == "quick" else [0, 1, 2, 99]
                     if kind in ("min_take", "max_take", "min_take2", "max_take2"):
                         positions = [99]
